@@ -84,6 +84,7 @@ func c12nGen(cw *caseWriter, tier string, r *rng) {
 
 func runC12(cw *caseWriter, tier string, seed uint64) {
 	runC12repl(cw, tier, &rng{s: seed*31 + 5})
+	runC12converge(cw, tier, &rng{s: seed*37 + 3})
 	r := &rng{s: seed}
 	c12nGen(cw, tier, r)
 	if tier == "quick" {
